@@ -91,21 +91,28 @@ def renamed(sp):
                 fa[tgt] = nm_
                 inv[nm_] = tgt
     assert len(set(fa.values())) == len(fa)
+    st_ = [a for a in sp['assets'] if a['kind'] == 'StructuredAsset']
+    out_ = [a for a in sp['assets'] if a['kind'] not in ('StructuredAsset', 'ScaledAsset', 'LinkedAsset')]
+    if st_ and out_ and rng.random() < 0.4:
+        # names need to be distinct within ONE portfolio only: an asset of the outer portfolio gets the name of a wrapped asset
+        inner_ = [b for b in rng.choice(st_)['assets'] if b['kind'] != 'ScaledAsset']
+        if inner_:
+            fa[rng.choice(out_)['name']] = fa[rng.choice(inner_)['name']]
     rename_assets(v['assets'], fa, fn)
     v['id'] = sp['id'] + '+ren'
     return v, fa, fn
 
 
-def linked_specs(seed, n, tag):
+def linked_specs(seed, n, tag, freq='h'):
     """a market and a LinkedAsset wrapping two plants; the link names its assets by NAME (documented option): the first plant may
     only run while the second one is on"""
     out = []
     for i in range(n):
         rng = random.Random('%s/%s/%d' % (seed, tag, i))
         T = rng.randint(4, 7)
-        g = {'start': '2022-03-01 00:00', 'freq': 'h', 'unit': 'h', 'tz': None, 'T': T}
+        g = {'start': '2022-03-01 00:00', 'freq': freq, 'unit': 'h', 'tz': None, 'T': T}
         import pandas as pd
-        g['end'] = (pd.Timestamp(g['start']) + pd.Timedelta(hours=T)).strftime('%Y-%m-%d %H:%M')
+        g['end'] = (pd.Timestamp(g['start']) + T * gen.freq_td(freq)).strftime('%Y-%m-%d %H:%M')
         prices = {}
         cfg = {'p_window': 0.0, 'p_wacc': 0.0, 'p_coarse': 0.0, 'p_periodic': 0.0, 'p_profile': 0.0}
         m = gen.gen_simple_contract(rng, g, cfg, 'm', 'N0', prices, market=True)
@@ -187,6 +194,9 @@ def run(ctx):
                       # assets that have no step in the horizon (expired / not yet started) next to assets with restriction rows
                       + gen.gen_many(ctx.seed, n // 3, dict(CFG, p_window=0.7, window_kinds=['before', 'after', 'inside', 'before'], p_coarse=0.0, p_periodic=0.0, n_assets=(3, 5),
                                                             kinds={'Storage': 3, 'Contract': 3, 'SimpleContract': 1, 'ExtendedTransport': 1}), 'c09dead_')
+                      # structured assets wrapping assets without a step in the horizon (expired / not yet started), in any position
+                      + gen.gen_many(ctx.seed, n // 3, dict(CFG, p_coarse=0.0, p_periodic=0.0, p_window_inner=0.5, inner_window_kinds=['before', 'after', 'inside', 'before'],
+                                                            p_struct_window=0.0, nodes=(2, 3), kinds={'StructuredAsset': 4, 'SimpleContract': 1, 'Transport': 1}), 'c09stdead_')
                       # order books with orders outside the horizon next to assets with binary variables
                       + gen.gen_many(ctx.seed, n // 3, dict(CFG, p_coarse=0.0, p_periodic=0.0, p_no_simult=0.9, p_full_exec=0.5, n_assets=(2, 4), T=(4, 7),
                                                             order_kinds=['outside', 'inside', 'inside', 'outside'],
